@@ -294,14 +294,13 @@ def run(ctx):
             for cn in rv_.mol.conformation_names[:1]:
                 conf = rv_.mol.conformations[cn]
                 hs = [a for a in conf.atoms if a.element == "H" and a.res_name.strip() not in ("HOH", "WAT")]
-                hsets.append({"h": [list(observe.key_of(a)) + [len([b for b in a.bonded_atoms if b.element != "H"])] for a in hs],
-                              "supplied": nsup})
+                hsets.append(hydrogen_set(hs, nsup))
                 hsmeta.append({"input": vn, "pdb": vt, "optargs": vo, "hydrogens": len(hs)})
                 ctx.nontriv(("hset", vn))
     if hsets:
         tf3 = os.path.join(wd, "hyd_sets.json")
         json.dump(hsets, open(tf3, "w"))
-        res, viol = tlc.trace_check("Trace_HydSet", ["H_OneParent", "H_Separated", "H_NoneAdded"], tf3, constants={"MinSep": 500}, timeout=1800)
+        res, viol = tlc.trace_check("Trace_HydSet", ["H_OneParent", "H_NoHH", "H_Separated", "H_NoneAdded"], tf3, constants={"MinSep": 500}, timeout=1800)
         ctx.add_tlc(res, "complete hydrogen sets of runs (default and --keep-protons)")
         ctx.traces += len(hsets)
         for inv, idxs in sorted(viol.items()):
@@ -333,6 +332,13 @@ def run(ctx):
                           {"pdb": m["pdb"], "orig": m["orig"]})
     ctx.extra["hydrogens_in_runs_checked"] = sum(len(h["h"]) for h in hrecs)
     ctx.extra["complement_sites_checked"] = sum(1 for h in hrecs if h["exp"] >= 0)
+
+
+def hydrogen_set(hs, nsup=-1):
+    """Trace_HydSet record of a list of hydrogen atoms."""
+    return {"h": [list(observe.key_of(a)) + [len([b for b in a.bonded_atoms if b.element != "H"]),
+                                             len([b for b in a.bonded_atoms if b.element == "H"])] for a in hs],
+            "supplied": nsup}
 
 
 FULL = {"HIS": {"N", "CA", "C", "O", "CB", "CG", "ND1", "CD2", "CE1", "NE2"},
